@@ -343,9 +343,9 @@ func GenHistory(r *rand.Rand, schema models.IndexSchema, maxPointSize int, o His
 				used[id] = true
 				d := DocSpec{}
 				full := GenDoc(r, schema, o.PIndexed)
-				for k, v := range full {
+				for _, k := range sortedKeys(full) { // never draw inside a Go map iteration: one seed = one workload
 					if r.IntN(2) == 0 {
-						d[k] = v
+						d[k] = full[k]
 					}
 				}
 				// remove some fields of the stored document
